@@ -62,7 +62,9 @@ var c15Cases = []func(string) string{
 		return string(b)
 	},
 }
-var c15WS = []string{"", " ", "\t", "\n "}
+// whitespace decorations: each of SP, HT, LF, CRLF alone (a normaliser that
+// special-cases a subset of them is thereby visible) and one mixed run
+var c15WS = []string{"", " ", "\t", "\n", "\r\n", "\n \t"}
 var c15Params = []string{"", ";charset=utf-8", `; charset="utf-8"`, `;a=b;c="d e"`, `; q=0.9 ; v=1`, `; title*=utf-8''%e2%82%ac`}
 
 func decorate(n string, ci, li, ti, pi int) string {
@@ -98,7 +100,7 @@ func c15IsEval(cs *core.Case) (bool, string, string) {
 
 // kind "c15eq": Strs = [a, b], Ints = [decoration a (packed), decoration b, position, listlen]
 func c15EqEval(cs *core.Case) (bool, string, string) {
-	unpack := func(p int) (int, int, int, int) { return p & 3, (p >> 2) & 3, (p >> 4) & 3, (p >> 6) & 7 }
+	unpack := func(p int) (int, int, int, int) { return p & 3, (p >> 2) & 7, (p >> 5) & 7, (p >> 8) & 7 }
 	c1, l1, t1, p1 := unpack(cs.Ints[0])
 	c2, l2, t2, p2 := unpack(cs.Ints[1])
 	a := decorate(cs.Strs[0], c1, l1, t1, p1)
@@ -137,7 +139,7 @@ func c15ResEval(cs *core.Case) (bool, string, string) {
 	if len(cs.Strs) > 0 && cs.Strs[0] != "" {
 		want := cs.Strs[0]
 		if bare(s) == want {
-			for _, dec := range []string{want, strings.ToUpper(want), " " + want + "\t", want + "; charset=utf-8"} {
+			for _, dec := range []string{want, strings.ToUpper(want), " " + want + "\t", want + "\n", "\r\n" + want, want + "; charset=utf-8"} {
 				if !d.Is(dec) {
 					return false, "C15/result/not-Is-own-type", fmt.Sprintf("input %s: result %q does not satisfy Is(%q)", core.Quote(cs.In), s, dec)
 				}
@@ -287,7 +289,19 @@ func c15Run(c *core.Ctx) {
 	decos := []int{}
 	for ci := 0; ci < 4; ci++ {
 		for pi := 0; pi < 6; pi++ {
-			decos = append(decos, ci|((pi%4)<<2)|(((pi+ci)%4)<<4)|(pi<<6))
+			decos = append(decos, ci|((pi%6)<<2)|(((pi+ci)%6)<<5)|(pi<<8))
+		}
+	}
+	// equal names additionally get every (leading, trailing) whitespace pair
+	// on both sides, with and without a parameter and in two letter cases
+	wsDecos := append([]int{}, decos...)
+	for ci := 0; ci < 2; ci++ {
+		for pi := 0; pi < 2; pi++ {
+			for li := range c15WS {
+				for ti := range c15WS {
+					wsDecos = append(wsDecos, ci|(li<<2)|(ti<<5)|(pi<<8))
+				}
+			}
 		}
 	}
 	for ai, a := range np {
@@ -295,6 +309,10 @@ func c15Run(c *core.Ctx) {
 			continue
 		}
 		for bi, b := range np {
+			decos := decos
+			if a == b {
+				decos = wsDecos
+			}
 			for _, d1 := range decos {
 				for _, d2 := range decos {
 					if !c.Thorough() && a != b && (d1+d2)%2 != 0 {
